@@ -9,6 +9,13 @@
 //!      | {"op": "verify", "key": j, "msg": hex, "t": null|string, "sig": {"raw": hex} | {"by": i, "msg": hex, "t": null|string, "mut": M}}
 //!   M = null | {"flip": bit} | {"trunc": n} | {"extend": hex} | "neg_s" | "s_plus_n"
 //! Every op is self-contained (a verify names the signature it checks by how it is made), so op lists shrink freely.
+//! Gap ops (COVERAGE.md rows 17 / 20; kinds "c13:create", "c13:seed"), at the `askar_crypto` level (errors are CRYPTO error kinds):
+//!      | {"op": "create", "key": i, "via": "any"|"concrete", "msg": hex, "t": null|string}   `KeySign::create_signature` on `Box<AnyKey>` / on
+//!        `Ed25519KeyPair` | `K256KeyPair` | `P256KeyPair` | `P384KeyPair` rebuilt from the key's exported bytes  ↦ {"ok": length, "csig": hex} | {"err": kind}
+//!      | {"op": "siglen", "t": string}     `SignatureType::from_str(t).map(signature_length)`                  ↦ {"len": n} | {"err": kind}
+//!      | {"op": "edsign", "key": i, "msg": hex}   `Ed25519KeyPair::sign`                                         ↦ hex | null
+//!      | {"op": "seed", "alg", "seed": hex, "method": null|string, "msg": hex}   `LocalKey::from_seed`, then (signing algorithms) sign + verify
+//!        ↦ {"sk": hex, "pk": hex|null, "sig": hex|null} | {"err": kind}
 //! `out` = per op: sign ↦ {"ok": length, "sig": hex, "pub": hex} | {"err": kind}; verify ↦ true | false | {"err": kind} | {"sigerr": kind}.
 //! The Lean side computes the same from executable specifications of Ed25519 (RFC 8032) and ECDSA + RFC 6979 (`lean/AskarModel/Crypto/
 //! {Ed25519,Ecdsa}.lean`): the signature VALUE of every sign op and the VERDICT of every verify op.  The key material the specification
@@ -29,6 +36,9 @@ use std::collections::HashMap;
 use std::io::{BufRead, BufReader, Write};
 use std::process::{Child, ChildStdin, ChildStdout, Command, Stdio};
 use std::str::FromStr;
+use askar_crypto::alg::{ed25519::Ed25519KeyPair, k256::K256KeyPair, p256::P256KeyPair, p384::P384KeyPair, AnyKey, AnyKeyCreate};
+use askar_crypto::repr::{KeyPublicBytes, KeySecretBytes};
+use askar_crypto::sign::{KeySign, SignatureType};
 
 // ---------------------------------------------------------------------------------------------------------------------
 // small independent helpers
@@ -180,6 +190,8 @@ struct Ctx {
     /// per op: (algorithm of the key, mutation class of the signature presented) — context for the comparison with the specification
     meta: Vec<(String, String)>,
     cur: Option<(String, String)>,
+    /// observations outside the property statements (never oracle failures): witnesses, at most 8 per case
+    diag: Vec<Value>,
 }
 
 impl Ctx {
@@ -271,6 +283,16 @@ fn mut_class(m: &Value) -> &'static str {
 }
 
 fn run_op(cx: &mut Ctx, keys: &[K], op: &Value) -> Value {
+    match op["op"].as_str() {
+        Some("siglen") => return run_siglen(cx, op),
+        Some("seed") => return run_seed(cx, op),
+        Some("create") | Some("edsign") => {
+            let i = op["key"].as_u64().unwrap_or(0) as usize;
+            if i >= keys.len() { return json!({"err": "nokey"}); }
+            return if op["op"].as_str() == Some("create") { run_create(cx, keys, i, op) } else { run_edsign(cx, keys, i, op) };
+        }
+        _ => {}
+    }
     let i = op["key"].as_u64().unwrap_or(0) as usize;
     if i >= keys.len() { return json!({"err": "nokey"}); }
     let msg = unhex(op["msg"].as_str().unwrap_or(""));
@@ -363,9 +385,276 @@ fn run_op(cx: &mut Ctx, keys: &[K], op: &Value) -> Value {
     match r { Ok(b) => json!(b), Err(e) => json!({"err": kind_name(e.kind())}) }
 }
 
+// ---------------------------------------------------------------------------------------------------------------------
+// gap ops: `KeySign::create_signature`, `SignatureType::signature_length`, `Ed25519KeyPair::sign`, `LocalKey::from_seed`
+
+fn ckind(e: &askar_crypto::Error) -> String { format!("{:?}", e.kind()) }
+
+/// src/error.rs `From<CryptoError>`: the askar kind a crypto kind is reported as
+fn ckind_to_kind(c: &str) -> &'static str {
+    match c {
+        "Custom" => "Custom",
+        "Encryption" => "Encryption",
+        "ExceededBuffer" | "Unexpected" => "Unexpected",
+        "Unsupported" => "Unsupported",
+        _ => "Input",
+    }
+}
+
+type SigRes = Result<Vec<u8>, String>;
+
+/// (create_signature, write_signature into a Vec) on the concrete key type rebuilt from the exported bytes
+macro_rules! on_concrete {
+    ($T:ty, $k:expr, $msg:expr, $st:expr) => {{
+        let key: Result<$T, askar_crypto::Error> = match (&$k.secret, &$k.public) {
+            (Some(s), _) => <$T>::from_secret_bytes(s),
+            (None, Some(p)) => <$T>::from_public_bytes(p),
+            _ => Err(askar_crypto::Error::from(askar_crypto::ErrorKind::Invalid)),
+        };
+        match key {
+            Ok(key) => {
+                let a: SigRes = key.create_signature($msg, $st).map(|b| b.as_ref().to_vec()).map_err(|e| ckind(&e));
+                let mut v: Vec<u8> = Vec::new();
+                let b: SigRes = key.write_signature($msg, $st, &mut v).map(|_| v).map_err(|e| ckind(&e));
+                (a, b)
+            }
+            Err(e) => (Err(format!("rebuild:{}", ckind(&e))), Err(format!("rebuild:{}", ckind(&e)))),
+        }
+    }};
+}
+
+fn create_pair(k: &K, via: &str, msg: &[u8], st: Option<SignatureType>) -> (SigRes, SigRes) {
+    if via == "concrete" {
+        return match k.alg.as_str() {
+            "ed25519" => on_concrete!(Ed25519KeyPair, k, msg, st),
+            "k256" => on_concrete!(K256KeyPair, k, msg, st),
+            "p256" => on_concrete!(P256KeyPair, k, msg, st),
+            "p384" => on_concrete!(P384KeyPair, k, msg, st),
+            _ => (Err("noconcrete".into()), Err("noconcrete".into())),
+        };
+    }
+    let alg = k.key.algorithm();
+    let key: Result<Box<AnyKey>, askar_crypto::Error> = match (&k.secret, &k.public) {
+        (Some(s), _) => Box::<AnyKey>::from_secret_bytes(alg, s),
+        (None, Some(p)) => Box::<AnyKey>::from_public_bytes(alg, p),
+        _ => Err(askar_crypto::Error::from(askar_crypto::ErrorKind::Invalid)),
+    };
+    match key {
+        Ok(key) => {
+            let a: SigRes = key.create_signature(msg, st).map(|b| b.as_ref().to_vec()).map_err(|e| ckind(&e));
+            let mut v: Vec<u8> = Vec::new();
+            let b: SigRes = key.write_signature(msg, st, &mut v).map(|_| v).map_err(|e| ckind(&e));
+            (a, b)
+        }
+        Err(e) => (Err(format!("rebuild:{}", ckind(&e))), Err(format!("rebuild:{}", ckind(&e)))),
+    }
+}
+
+fn run_create(cx: &mut Ctx, keys: &[K], i: usize, op: &Value) -> Value {
+    cx.bump("op_create");
+    let k = &keys[i];
+    let msg = unhex(op["msg"].as_str().unwrap_or(""));
+    let t = t_of(op);
+    let via = op["via"].as_str().unwrap_or("any");
+    cx.bump(&format!("create_via_{}", via));
+    // what LocalKey::sign_message answers for the same key, message and type string (the property's observation point)
+    let lk: Result<Vec<u8>, &'static str> = k.key.sign_message(&msg, t.as_deref()).map_err(|e| kind_name(e.kind()));
+    let st = match t.as_deref().map(SignatureType::from_str).transpose() {
+        Ok(st) => st,
+        Err(e) => {
+            let c = ckind(&e);
+            cx.bump(&format!("create_err_{}", c));
+            if lk.as_ref().err().copied() != Some(ckind_to_kind(&c)) {
+                cx.fail(format!("create:type-parse-differs-from-sign_message:{}", k.alg), json!({"t": t, "parse": c, "sign_message": lk.as_ref().map(hex::encode).map_err(|e| *e)}));
+            }
+            return json!({"err": c});
+        }
+    };
+    let (a, b) = create_pair(k, via, &msg, st);
+    let ctx = json!({"alg": k.alg, "via": via, "msg": hex::encode(&msg), "t": t});
+    // the allocating method is the writing method
+    if a != b { cx.fail(format!("create:differs-from-write_signature:{}:{}", k.alg, via), json!({"ctx": ctx, "create": a, "write": b})); }
+    match &a {
+        Ok(sig) => {
+            cx.bump("create_ok");
+            cx.bump(&format!("create_ok_{}", k.alg));
+            match &lk {
+                Ok(s) if s == sig => cx.bump("create_eq_sign_message"),
+                Ok(s) => cx.fail(format!("create:value-differs-from-sign_message:{}:{}", k.alg, via), json!({"ctx": ctx, "create": hex::encode(sig), "sign_message": hex::encode(s)})),
+                Err(e) => cx.fail(format!("create:ok-where-sign_message-errs:{}:{}:{}", e, k.alg, via), ctx.clone()),
+            }
+            // the announced length: of the requested type, else of the algorithm's own type
+            let announced = st.or_else(|| SignatureType::from_str(native(&k.alg)).ok()).map(|x| x.signature_length());
+            if announced != Some(sig.len()) || sig_len_of(&k.alg) != Some(sig.len()) {
+                cx.fail(format!("create:length-differs-from-signature_length:{}:{}", k.alg, via), json!({"ctx": ctx, "len": sig.len(), "announced": announced}));
+            } else { cx.bump("create_len_eq_signature_length"); }
+            match k.key.verify_signature(&msg, sig, t.as_deref()) {
+                Ok(true) => cx.bump("create_verifies"),
+                other => cx.fail(format!("create:own-signature-rejected:{}:{}", k.alg, via), json!({"ctx": ctx, "got": format!("{:?}", other.map_err(|x| kind_name(x.kind())))})),
+            }
+            if !k.has_secret { cx.fail(format!("create:ok-without-secret:{}", k.alg), ctx.clone()); }
+            if foreign_type(&k.alg, t.as_deref()) { cx.fail(format!("create:err->ok:foreign-type:{}", k.alg), ctx.clone()); }
+            json!({"ok": sig.len(), "csig": hex::encode(sig)})
+        }
+        Err(c) => {
+            cx.bump(&format!("create_err_{}", c));
+            match &lk {
+                Err(e) if *e == ckind_to_kind(c) => cx.bump("create_err_eq_sign_message"),
+                other => cx.fail(format!("create:error-differs-from-sign_message:{}:{}:{}", c, k.alg, via), json!({"ctx": ctx, "sign_message": other.as_ref().map(hex::encode).map_err(|e| *e)})),
+            }
+            if k.has_secret && vouched_type(&k.alg, t.as_deref()) { cx.fail(format!("create:ok->err:{}:{}:{}", c, k.alg, via), ctx.clone()); }
+            json!({"err": c})
+        }
+    }
+}
+
+fn run_siglen(cx: &mut Ctx, op: &Value) -> Value {
+    cx.bump("op_siglen");
+    let t = op["t"].as_str().unwrap_or("");
+    match SignatureType::from_str(t) {
+        Ok(st) => {
+            let n = st.signature_length();
+            cx.bump("siglen_ok");
+            // a documented spelling announces the width of the algorithm it names
+            for a in SIG_ALGS { if vouched_type(a, Some(t)) && sig_len_of(a) != Some(n) { cx.fail(format!("siglen:wrong:{}", a), json!({"t": t, "len": n})); } }
+            if n != 64 && n != 96 { cx.fail("siglen:not-a-signature-width".into(), json!({"t": t, "len": n})); }
+            json!({"len": n})
+        }
+        Err(e) => {
+            let c = ckind(&e);
+            cx.bump(&format!("siglen_err_{}", c));
+            if SIG_ALGS.iter().any(|a| vouched_type(a, Some(t))) { cx.fail(format!("siglen:ok->err:{}", c), json!({"t": t})); }
+            json!({"err": c})
+        }
+    }
+}
+
+fn run_edsign(cx: &mut Ctx, keys: &[K], i: usize, op: &Value) -> Value {
+    cx.bump("op_edsign");
+    let k = &keys[i];
+    if k.alg != "ed25519" { return json!({"err": "notEd25519"}); }
+    let msg = unhex(op["msg"].as_str().unwrap_or(""));
+    let key = match (&k.secret, &k.public) {
+        (Some(s), _) => Ed25519KeyPair::from_secret_bytes(s),
+        (None, Some(p)) => Ed25519KeyPair::from_public_bytes(p),
+        _ => Err(askar_crypto::Error::from(askar_crypto::ErrorKind::Invalid)),
+    };
+    let key = match key { Ok(k) => k, Err(e) => return json!({"err": format!("rebuild:{}", ckind(&e))}) };
+    let lk = k.key.sign_message(&msg, None);
+    match key.sign(&msg) {
+        Some(sig) => {
+            cx.bump("edsign_some");
+            match &lk {
+                Ok(s) if s[..] == sig[..] => cx.bump("edsign_eq_sign_message"),
+                other => cx.fail("edsign:differs-from-sign_message".into(), json!({"msg": hex::encode(&msg), "sign": hex::encode(&sig[..]), "sign_message": format!("{:?}", other.as_ref().map(hex::encode).map_err(|e| kind_name(e.kind())))})),
+            }
+            if !k.has_secret { cx.fail("edsign:some-without-secret".into(), json!({})); }
+            json!(hex::encode(&sig[..]))
+        }
+        None => {
+            cx.bump("edsign_none");
+            if k.has_secret || lk.is_ok() { cx.fail("edsign:none-with-secret".into(), json!({})); }
+            Value::Null
+        }
+    }
+}
+
+/// how two different seeds that gave the same key relate (label of the oracle failure only)
+fn seed_collision_class(a: &[u8], b: &[u8]) -> &'static str {
+    let pad = |s: &[u8]| { let mut p = s[..s.len().min(32)].to_vec(); p.resize(32, 0); p };
+    if pad(a) != pad(b) { "unrelated" } else if a.len() >= 32 && b.len() >= 32 { "bytes-beyond-32-ignored" } else { "zero-padded" }
+}
+
+thread_local! { static SEEDS_SEEN: RefCell<Vec<(String, String, Vec<u8>, Vec<u8>)>> = RefCell::new(vec![]); }
+
+fn run_seed(cx: &mut Ctx, op: &Value) -> Value {
+    cx.bump("op_seed");
+    let name = op["alg"].as_str().unwrap_or("");
+    let alg = match KeyAlg::from_str(name) { Ok(a) => a, Err(_) => return json!({"err": "noalg"}) };
+    let seed = unhex(op["seed"].as_str().unwrap_or(""));
+    let method = op["method"].as_str();
+    let msg = unhex(op["msg"].as_str().unwrap_or(""));
+    let mclass = match method { None | Some("") => "det", Some("bls_keygen") => "bls_keygen", _ => "unknown" };
+    let r1 = LocalKey::from_seed(alg, &seed, method);
+    let r2 = LocalKey::from_seed(alg, &seed, method);
+    let ctx = json!({"alg": name, "seed": hex::encode(&seed), "method": method});
+    match (r1, r2) {
+        (Ok(k1), Ok(k2)) => {
+            cx.bump("seed_ok");
+            cx.bump(&format!("seed_ok_{}_{}", mclass, seed.len().min(65)));
+            let sk = k1.to_secret_bytes().map(|b| b.to_vec()).unwrap_or_default();
+            let sk2 = k2.to_secret_bytes().map(|b| b.to_vec()).unwrap_or_default();
+            let pk = k1.to_public_bytes().ok().map(|b| b.to_vec());
+            if sk != sk2 || sk.is_empty() { cx.fail(format!("from_seed:not-deterministic:{}", name), ctx.clone()); }
+            if mclass == "unknown" { cx.fail(format!("from_seed:err->ok:unknown-method:{}", name), ctx.clone()); }
+            if mclass == "bls_keygen" && seed.len() < 32 { cx.fail(format!("from_seed:err->ok:bls-short-seed:{}", name), ctx.clone()); }
+            if k1.algorithm() != alg { cx.fail(format!("from_seed:wrong-algorithm:{}", name), ctx.clone()); }
+            // different seeds give different keys (same algorithm, same method), equal seeds equal keys — over the ops of this case
+            let hit = SEEDS_SEEN.with(|s| {
+                let mut s = s.borrow_mut();
+                let hit = s.iter().find(|(a, m, sd, k)| a == name && m == mclass && ((*sd != seed) == (*k == sk))).map(|(_, _, sd, _)| sd.clone());
+                s.push((name.to_string(), mclass.to_string(), seed.clone(), sk.clone()));
+                hit
+            });
+            if let Some(other) = hit {
+                if other == seed { cx.fail(format!("from_seed:same-seed-different-key:{}", name), ctx.clone()); }
+                else {
+                    let class = seed_collision_class(&other, &seed);
+                    let w = json!({"alg": name, "seed_a": hex::encode(&other), "seed_b": hex::encode(&seed), "method": method, "key": hex::encode(&sk)});
+                    if mclass == "det" && class != "unrelated" {
+                        // OBSERVATION, outside the property statements (neither C11 nor C13 states that distinct seeds give distinct keys):
+                        // `RandomDet::new` keeps the first 32 bytes of the seed and zero-pads a shorter one
+                        cx.bump(&format!("obs:from_seed:seed-collision:{}", class));
+                        if cx.diag.len() < 8 { cx.diag.push(json!({"obs": format!("from_seed:seed-collision:{}", class), "witness": w})); }
+                    } else {
+                        // the seed does not reach the key at all / two unrelated seeds collide: the key is not "seeded" by its seed
+                        cx.fail(format!("from_seed:distinct-seeds-same-key:{}:{}", mclass, class), w);
+                    }
+                }
+            }
+            // a seeded signing key signs, deterministically, and its signature verifies under it and under its public-only import
+            let mut sigv = Value::Null;
+            if sig_len_of(name).is_some() {
+                match (k1.sign_message(&msg, None), k2.sign_message(&msg, None)) {
+                    (Ok(s1), Ok(s2)) => {
+                        cx.bump("sign_ok");
+                        if s1 != s2 { cx.fail(format!("from_seed:sign-not-deterministic:{}", name), ctx.clone()); }
+                        if sig_len_of(name) != Some(s1.len()) { cx.fail(format!("sign:wrong-length:{}:{}", name, s1.len()), ctx.clone()); }
+                        let pubk = pk.as_ref().and_then(|p| LocalKey::from_public_bytes(alg, p).ok());
+                        let v1 = k1.verify_signature(&msg, &s1, None).unwrap_or(false);
+                        let v2 = pubk.as_ref().map_or(false, |p| p.verify_signature(&msg, &s1, None).unwrap_or(false));
+                        if !(v1 && v2) { cx.fail(format!("verify-own:true->false:{}:seeded", name), ctx.clone()); }
+                        let mut bad = s1.clone();
+                        let nb = bad.len();
+                        bad[nb - 1] ^= 1;
+                        match k1.verify_signature(&msg, &bad, None) { Ok(false) => cx.bump("verify_false"), _ => cx.fail(format!("verify:false->true:altered-flip:{}", name), ctx.clone()) }
+                        sigv = json!(hex::encode(&s1));
+                    }
+                    _ => cx.fail(format!("sign:ok->err:seeded:{}", name), ctx.clone()),
+                }
+            }
+            json!({"sk": hex::encode(&sk), "pk": if sig_len_of(name).is_some() { json!(pk.map(hex::encode)) } else { Value::Null }, "sig": sigv})
+        }
+        (Err(e1), Err(e2)) => {
+            let n = kind_name(e1.kind());
+            cx.bump(&format!("seed_err_{}", n));
+            cx.bump(&format!("seed_err_{}_{}", mclass, n));
+            if e1.kind() != e2.kind() { cx.fail(format!("from_seed:not-deterministic-error:{}", name), ctx.clone()); }
+            match mclass {
+                "unknown" => if n != "Unsupported" { cx.fail(format!("from_seed:unknown-method:Unsupported->{}", n), ctx.clone()) },
+                "bls_keygen" => if seed.len() >= 32 || n != "Input" { cx.fail(format!("from_seed:bls_keygen:ok->err:{}:{}", n, name), ctx.clone()) },
+                _ => if seed.len() == 32 { cx.fail(format!("from_seed:ok->err:{}:{}", n, name), ctx.clone()) },
+            }
+            json!({"err": n})
+        }
+        _ => { cx.fail(format!("from_seed:not-deterministic-outcome:{}", name), ctx); json!({"err": "Nondeterministic"}) }
+    }
+}
+
 pub fn exec(case: &Value, _tag: &str) -> Value {
     if case["kind"].as_str() == Some("c13:selftest") { return exec_selftest(case); }
-    let mut cx = Ctx { oracle: vec![], feat: Map::new(), cache: HashMap::new(), meta: vec![], cur: None };
+    let mut cx = Ctx { oracle: vec![], feat: Map::new(), cache: HashMap::new(), meta: vec![], cur: None, diag: vec![] };
+    SEEDS_SEEN.with(|s| s.borrow_mut().clear());
     let mut keys: Vec<K> = vec![];
     for (i, spec) in case["keys"].as_array().cloned().unwrap_or_default().iter().enumerate() {
         match build_key(spec, &keys) {
@@ -408,8 +697,9 @@ pub fn exec(case: &Value, _tag: &str) -> Value {
             }
         }
     }
-    compare_with_spec(&mut cx, case, &km, &out);
-    json!({"out": out, "oracle": cx.oracle, "feat": cx.feat, "model_input": {"km": km}})
+    // (seed cases: every value is compared with the specification through the correspondence; no sign / verify op for the child to judge)
+    if case["kind"].as_str() != Some("c13:seed") { compare_with_spec(&mut cx, case, &km, &out); }
+    json!({"out": out, "oracle": cx.oracle, "feat": cx.feat, "model_input": {"km": km}, "diag": cx.diag})
 }
 
 // ---------------------------------------------------------------------------------------------------------------------
@@ -959,6 +1249,78 @@ fn gen_digest(r: &mut Rng) -> Value {
     json!({"kind": "c13:digest", "keys": keys, "ops": ops})
 }
 
+/// gap row 17: `create_signature` on `AnyKey` and on the concrete key types, `signature_length`, `Ed25519KeyPair::sign`
+fn gen_create(r: &mut Rng, idx: usize, thorough: bool) -> Value {
+    let alg = SIG_ALGS[idx % 4];
+    let other = OTHER_ALGS[(idx / 4) % OTHER_ALGS.len()];
+    let keys = vec![
+        base_key(r, alg, idx / 4),
+        json!({"src": "public_of", "of": 0}),
+        json!({"src": "jwk_secret_of", "of": 0}),
+        json!({"alg": other, "src": "generate"}),
+    ];
+    let spelled = match alg { "ed25519" => " Ed-DSA_", "p256" => "e s_2-5-6", "k256" => "es-256-K", _ => "ES 384" };
+    let long = "a".repeat(65);
+    let mut ops = vec![];
+    let nmsg = if thorough { 6 } else { 3 };
+    for mi in 0..nmsg {
+        let msg = if mi == 0 { vec![] } else { rand_msg(r, thorough) };
+        ops.push(sign_op(0, &msg, None));
+        for via in ["any", "concrete"] {
+            for t in [None, Some(native(alg)), Some(spelled)] {
+                for k in [0usize, 2, 1] { ops.push(json!({"op": "create", "key": k, "via": via, "msg": hex::encode(&msg), "t": t})); }
+            }
+            if mi == 0 {
+                for t in ["EdDSA", "ES256", "ES256K", "ES384", "nope", "", long.as_str(), "es256\u{212a}"] {
+                    for k in [0usize, 1] { ops.push(json!({"op": "create", "key": k, "via": via, "msg": hex::encode(&msg), "t": t})); }
+                }
+            }
+        }
+        // a key of an algorithm that does not sign (through `AnyKey` only: it has no `KeySign` of its own)
+        for t in [None, Some(native(alg)), Some("nope")] { ops.push(json!({"op": "create", "key": 3, "via": "any", "msg": hex::encode(&msg), "t": t})); }
+        if alg == "ed25519" { for k in [0usize, 1, 2] { ops.push(json!({"op": "edsign", "key": k, "msg": hex::encode(&msg)})); } }
+        // the signature made by create_signature is the one sign_message makes: it is rejected when altered
+        ops.push(verify_op(1, &msg, None, 0, &msg, None, json!({"flip": r.below(sig_len_of(alg).unwrap() * 8)})));
+        ops.push(verify_op(1, &msg, None, 2, &msg, Some(native(alg)), Value::Null));
+    }
+    if idx % 4 == 0 { for t in type_strings(r, thorough) { ops.push(json!({"op": "siglen", "t": t})); } }
+    else { for t in ["EdDSA", "ES256", "ES256K", "ES384", "es-384", "x", ""] { ops.push(json!({"op": "siglen", "t": t})); } }
+    json!({"kind": "c13:create", "keys": keys, "ops": ops})
+}
+
+const ALL_ALGS: [&str; 16] = ["ed25519", "p256", "k256", "p384", "a128gcm", "a256gcm", "a128cbchs256", "a256cbchs512", "a128kw", "a256kw",
+    "bls12381g1", "bls12381g2", "bls12381g1g2", "c20p", "xc20p", "x25519"];
+
+/// gap row 20: `LocalKey::from_seed` — every method class x seed lengths 0 / 1 / 31 / 32 / 33 / 64 x algorithm; seeds that share their
+/// first 32 bytes, a seed and its zero-extension, the same seed twice, a neighbouring seed
+fn gen_seed(r: &mut Rng, idx: usize, thorough: bool) -> Value {
+    let mut ops = vec![];
+    let per = if thorough { 4 } else { 2 };
+    for a in 0..per {
+        let alg = ALL_ALGS[(idx * per + a) % 16];
+        let base = r.bytes(64);
+        let ml = r.below(40); let msg = r.bytes(ml);
+        let op = |seed: &[u8], method: Option<&str>| json!({"op": "seed", "alg": alg, "seed": hex::encode(seed), "method": method, "msg": hex::encode(&msg)});
+        let mut z31 = base[..31].to_vec(); z31.push(0);
+        let mut n32 = base[..32].to_vec(); n32[31] ^= 1;
+        let mut z64 = base[..32].to_vec(); z64.extend_from_slice(&[0u8; 32]);
+        let other = r.bytes(32);
+        // RandomDet (method absent or empty)
+        for s in [&base[..0], &base[..1], &base[..31], &z31[..], &base[..32], &base[..32], &base[..33], &base[..64], &z64[..], &n32[..], &other[..], &[0u8; 32][..], &[0u8; 5][..]] {
+            ops.push(op(s, None));
+        }
+        ops.push(op(&base[..32], Some("")));
+        ops.push(op(&base[..31], Some("")));
+        // BlsKeyGen (any algorithm may be generated from it)
+        for s in [&base[..0], &base[..31], &base[..32], &base[..32], &base[..33], &base[..64], &z64[..], &n32[..]] { ops.push(op(s, Some("bls_keygen"))); }
+        // anything else is not a method
+        for m in ["BLS_KEYGEN", "bls-keygen", "bls_keygen ", " bls_keygen", "random", "none", "\u{0}", "bls_keygen\u{0}", "blskeygen"] { ops.push(op(&base[..32], Some(m))); }
+        ops.push(op(&base[..0], Some("bogus")));
+        ops.push(op(&base[..64], Some(&"m".repeat(300))));
+    }
+    json!({"kind": "c13:seed", "keys": [], "ops": ops})
+}
+
 pub fn gen(r: &mut Rng, thorough: bool, count: Option<usize>) -> Vec<Value> {
     let mut out: Vec<Value> = vec![json!({"kind": "c13:selftest"})];
     { let mut rr = r.fork(); out.push(gen_digest(&mut rr)); }
@@ -976,6 +1338,9 @@ pub fn gen(r: &mut Rng, thorough: bool, count: Option<usize>) -> Vec<Value> {
             });
         }
     }
+    // gap kinds last, so that the cases above keep their ids
+    for i in 0..(if thorough { 48 } else { 8 }) { let mut rr = r.fork(); out.push(gen_create(&mut rr, i, thorough)); }
+    for i in 0..(if thorough { 64 } else { 8 }) { let mut rr = r.fork(); out.push(gen_seed(&mut rr, i, thorough)); }
     if let Some(c) = count {
         // keep a spread over the kinds
         let step = (out.len() as f64 / c.max(1) as f64).max(1.0);
